@@ -33,6 +33,9 @@ Proof.
 Qed.
 
 (* ---------------------------------------------------------------- split_whitespace *)
+Lemma frev_rev (l : str) : frev l = rev l.
+Proof. unfold frev. symmetry. apply rev_alt. Qed.
+
 Definition no_ws (w : str) : Prop := forallb (fun c => negb (is_whitespace c)) w = true.
 
 Lemma split_ws_word : forall a acc, no_ws a -> (acc <> [] \/ a <> []) ->
@@ -40,7 +43,7 @@ Lemma split_ws_word : forall a acc, no_ws a -> (acc <> [] \/ a <> []) ->
 Proof.
   induction a as [|c a IH]; intros acc Hn Hne.
   - cbn [split_ws]. destruct acc as [|x acc]; [destruct Hne; congruence|].
-    rewrite app_nil_r. reflexivity.
+    rewrite app_nil_r, frev_rev. reflexivity.
   - unfold no_ws in Hn. cbn [forallb] in Hn. apply andb_true_iff in Hn. destruct Hn as [Hc Hn].
     apply negb_true_iff in Hc. cbn [split_ws]. rewrite Hc.
     rewrite IH; [|exact Hn|left; discriminate].
@@ -60,8 +63,8 @@ Qed.
 Lemma split_ws_pieces : forall s acc, no_ws acc ->
   Forall (fun w => w <> [] /\ no_ws w) (split_ws acc s).
 Proof.
-  assert (Hrev : forall acc x, no_ws (x :: acc) -> rev (x :: acc) <> [] /\ no_ws (rev (x :: acc))).
-  { intros acc x H. split.
+  assert (Hrev : forall acc x, no_ws (x :: acc) -> frev (x :: acc) <> [] /\ no_ws (frev (x :: acc))).
+  { intros acc x H. rewrite frev_rev. split.
     - cbn [rev]. intro E. apply app_eq_nil in E. destruct E as [_ E]. discriminate.
     - unfold no_ws in *. rewrite forallb_forall in *. intros c Hc. apply H. apply in_rev. exact Hc. }
   induction s as [|c s IH]; intros acc Ha.
